@@ -36,12 +36,12 @@ def make_skeleton(spec):
         if style == 'jsdoc':
             return '/**' + text + '*/\n'
         return '//' + text + '\n'
-    head = cm(spec.get('head'), 0)
-    mid = cm(spec.get('mid'), 1)
+    head = cm(spec.get('head'), 0) + cm(spec.get('head2'), 3)        # head2: a second comment in the same leading group
+    mid = cm(spec.get('mid'), 1) + cm(spec.get('mid2'), 4)
     inner = cm(spec.get('inner'), 2)
     src = head + 'const v1 = 0;\n' + BODY.replace('@INNER@', inner).replace('@MID@', mid)
     opts = {'optimize': False}
-    sk = Skeleton('c15#%s|%s|%s|%s' % (spec.get('head'), spec.get('mid'), spec.get('inner'), spec.get('pragma')), src, leaves, opts,
+    sk = Skeleton('c15#%s|%s|%s|%s%s' % (spec.get('head'), spec.get('mid'), spec.get('inner'), spec.get('pragma'), '|%s|%s' % (spec.get('head2'), spec.get('mid2')) if spec.get('head2') or spec.get('mid2') else ''), src, leaves, opts,
                   pragma=spec.get('pragma'), meta={'family': 'c15'})
     return sk
 
@@ -219,6 +219,15 @@ def jobs(tier):
             out.append({'inner': ('block', c), 'pragma': pragma})
         for c, d in itertools.product(['jsx', 'imp', 'plain', 'frag'], repeat=2):
             out.append({'head': ('block', c), 'mid': ('block', d), 'pragma': pragma})
+        # two comments leading the same token: a non-annotation (also one that mentions @jsx) before / after the annotation
+        firsts = ['imp', 'rt', 'frag', 'mid', 'plain', 'noname', 'glued'] if tier == 'quick' else [c for c in CANDS if c not in ('jsdocnl',)]
+        for c in firsts:
+            for st1, st2 in (('jsdoc', 'jsdoc'), ('line', 'line'), ('block', 'line'), ('line', 'block')):
+                out.append({'head': (st1, c), 'head2': (st2, 'jsx'), 'pragma': pragma})
+                out.append({'head': (st1, 'jsx2'), 'head2': (st2, c), 'pragma': pragma})
+            out.append({'mid': ('line', c), 'mid2': ('block', 'jsx'), 'pragma': pragma})
+        out.append({'head': ('line', 'sym5'), 'head2': ('block', 'jsx'), 'pragma': pragma})
+        out.append({'head': ('block', 'jsx'), 'head2': ('line', 'sym5'), 'pragma': pragma})
         lens = [5, 6, 7] if tier == 'quick' else [4, 5, 6, 7, 8, 9]
         for n in lens:
             out.append({'head': ('block', 'sym%d' % n), 'pragma': pragma})
